@@ -6,6 +6,7 @@ import (
 	"sort"
 	"strings"
 	"testing"
+	"time"
 
 	"pgregory.net/rapid"
 )
@@ -19,6 +20,7 @@ func vpC36RawBody(r *vpC36Req, body string) *vpC36Req {
 var vpC36DbgRe = regexp.MustCompile(`(: net/http=.*| \(client saw.*|unreadable: .*)$`)
 
 func TestVP_C36_Dbg(t *testing.T) {
+	vpC36SafetyWait = 400 * time.Millisecond
 	e := vpC36NewEnv()
 	defer e.close()
 	hist := map[string]int{}
